@@ -156,6 +156,12 @@ Proof.
   - exact i_cid0.
 Qed.
 
+Lemma inv_startfail s t s' : Inv s -> step s (LStartFail t) = Some s' -> Inv s'.
+Proof.
+  intros I H. cbn in H. destruct (thr s t) as [[n p|n p]|] eqn:Et; try discriminate. inj_some.
+  apply inv_drop_thr; [exact I | apply (i_done _ I)].
+Qed.
+
 Lemma inv_other s l s' :
   Inv s -> step s l = Some s' ->
   match l with LReload | LStop | LMemGet _ | LMemTxn _ _ _ => True | _ => False end -> Inv s'.
@@ -201,6 +207,7 @@ Proof.
   - eapply inv_begin; eauto.
   - eapply inv_txn; eauto.
   - eapply inv_start; eauto.
+  - eapply inv_startfail; eauto.
   - eapply inv_other; eauto. exact Logic.I.
   - eapply inv_other; eauto. exact Logic.I.
   - eapply inv_other; eauto. exact Logic.I.
@@ -283,7 +290,7 @@ End Statements.
 
 (* without storage faults, whoever applied the record is (or is about to be) the one answered OK *)
 Definition no_fault (_ : state) (l : label) : bool :=
-  match l with LTxn _ Ok | LMemTxn _ _ Ok => true | LTxn _ _ | LMemTxn _ _ _ => false | _ => true end.
+  match l with LTxn _ Ok | LMemTxn _ _ Ok => true | LTxn _ _ | LMemTxn _ _ _ | LStartFail _ => false | _ => true end.
 
 Definition winner_known (s : state) : Prop :=
   forall w, applied s = [w] -> In w (acked s) \/ exists t p, thr s t = Some (PWon w p).
@@ -303,6 +310,7 @@ Proof.
       rewrite H5 in Ha. inversion Ha; subst. right. exists t, p. rewrite set_thr_eq, Nat.eqb_refl. reflexivity.
   - destruct (thr s t) as [[n p|n p]|] eqn:Et; try discriminate. inj_some. cbn. intros Ha.
     destruct (i_won _ I _ _ _ Et) as [Happ _]. left. left. congruence.
+  - discriminate Hf.
   - inj_some. cbn. apply Hk.
   - inj_some. cbn. apply Hk.
   - destruct (mpend s m); [discriminate|]. destruct (cid (e s)); inj_some; cbn; apply Hk.
@@ -354,6 +362,7 @@ Proof.
   - destruct (thr s t) as [[n p|n p]|]; try discriminate. inj_some. cbn.
     destruct (match o with ErrNotApplied => false | _ => negb (is_some (root (e s))) end); exact Hc.
   - destruct (thr s t) as [[n p|n p]|]; try discriminate. inj_some. exact Hc.
+  - destruct (thr s t) as [[n p|n p]|]; try discriminate. inj_some. exact Hc.
   - inj_some. exact Hc.
   - inj_some. exact Hc.
   - destruct (mpend s m); [discriminate|]. rewrite Hc in H. inj_some. exact Hc.
@@ -387,9 +396,9 @@ Proof.
 Qed.
 
 (* the three ways of checking do compare: validateRequest, RegionSyncer.Sync and Tso's direct comparison *)
-Lemma validateRequest_compares : In (IfE "header.GetClusterId() != s.clusterID" [Ret] []) skel_validateRequest.
+Lemma validateRequest_compares : In (IfE "v1.GetClusterId() != v0.clusterID" [Ret] []) skel_validateRequest.
 Proof. vm_compute. tauto. Qed.
-Lemma syncer_compares : In "clusterID != s.server.ClusterID()" syncer_sync_conds.
+Lemma syncer_compares : In "v4 != v0.server.ClusterID()" syncer_sync_conds.
 Proof. vm_compute. tauto. Qed.
 
 (* the handlers the driver exercises and the table agree on who is exempt *)
@@ -433,3 +442,45 @@ Proof. vm_compute. reflexivity. Qed.
 Lemma headerless_refused_pf s t p s' :
   scid s <> 0%Z -> step s (LBegin t (hid_of None) p) = Some s' -> s' = s.
 Proof. intros Hc. apply refused_at_begin_pf. left. cbn. congruence. Qed.
+
+Local Open Scope Z_scope.
+(* ---------- the winner's cluster.Start fails: the answer is an error although the record is stored ---------- *)
+Lemma start_failure_pf c ls t n p s' :
+  thr (exec step (init c) ls) t = Some (PWon n p) -> step (exec step (init c) ls) (LStartFail t) = Some s' ->
+  e s' = e (exec step (init c) ls) /\ applied s' = [n] /\ root (e s') = Some n /\ acked s' = [] /\ thr s' t = None
+  /\ running s' = running (exec step (init c) ls).
+Proof.
+  intros Ht H. pose proof (inv_exec c ls) as I. cbn in H. rewrite Ht in H. inj_some. cbn.
+  destruct (i_won _ I _ _ _ Ht) as [Happ Hnot].
+  rewrite set_thr_eq, Nat.eqb_refl. repeat split; auto.
+  - destruct (i_rec _ I) as [(_ & _ & _ & _ & H5)|(w & q & H1 & _ & _ & _ & H5 & _)]; congruence.
+  - destruct (acked (exec step (init c) ls)) as [|a r] eqn:E; [reflexivity|].
+    pose proof (i_ack _ I a) as Ha. rewrite E in Ha. specialize (Ha (or_introl eq_refl)).
+    rewrite Happ in Ha. inversion Ha; subst. destruct Hnot. left; reflexivity.
+Qed.
+
+(* whatever retries do afterwards, nobody is ever answered OK any more and the record never changes: the cluster comes up
+   with the next reload (leader change / restart) *)
+Lemma after_start_failure_pf s l s' :
+  Inv s -> root (e s) <> None -> acked s = [] -> (forall t n p, thr s t = Some (PWon n p) -> False) ->
+  step s l = Some s' ->
+  root (e s') = root (e s) /\ stores (e s') = stores (e s) /\ regions (e s') = regions (e s) /\ acked s' = []
+  /\ (forall t n p, thr s' t = Some (PWon n p) -> False).
+Proof.
+  intros I Hr Ha Hw H. destruct l; cbn in H.
+  - destruct (thr s t) eqn:Et; [discriminate|].
+    destruct (negb (hid =? scid s)); [inj_some; auto|]. destruct (running s); [inj_some; auto|].
+    destruct (check_req p); inj_some; [auto|]. cbn. repeat split; auto.
+    intros t' n' q. rewrite set_thr_eq. destruct (Nat.eqb t' t); [discriminate|apply Hw].
+  - destruct (thr s t) as [[n p|n p]|] eqn:Et; try discriminate. inj_some.
+    destruct (root (e s)) eqn:Er; [|contradiction]. cbn.
+    assert (Hs : match o with ErrNotApplied => false | _ => false end = false) by (destruct o; reflexivity).
+    destruct o; cbn; repeat split; auto; intros t' n' q; rewrite set_thr_eq; destruct (Nat.eqb t' t); try discriminate; apply Hw.
+  - destruct (thr s t) as [[n p|n p]|] eqn:Et; try discriminate. destruct (Hw _ _ _ Et).
+  - destruct (thr s t) as [[n p|n p]|] eqn:Et; try discriminate. destruct (Hw _ _ _ Et).
+  - inj_some. cbn. auto.
+  - inj_some. cbn. auto.
+  - destruct (mpend s m); [discriminate|]. destruct (cid (e s)); inj_some; cbn; auto.
+  - destruct (negb (mpend s m)); [discriminate|]. inj_some. cbn.
+    destruct (match o with ErrNotApplied => false | _ => negb (is_some (cid (e s))) end); cbn; auto.
+Qed.
